@@ -933,8 +933,93 @@ pub fn check_threads(tmp: &Path, c: &Threads, obs: &mut Obs) -> CaseResult {
     Ok(())
 }
 
+/// The public `ConsoleWriter` used directly, without an appender: style requests and text through the writer itself and
+/// through its `lock()`, in generated order, colour forced on a pipe. Every style request - also the same style twice in
+/// a row, also after somebody else reset the terminal - yields one sequence that sets exactly the requested attributes.
+#[derive(Serialize, Deserialize, Debug, Clone)]
+pub struct RawWriter {
+    /// (through lock()?, style, text)
+    pub ops: Vec<(bool, Option<(usize, usize, usize)>, String)>,
+    pub stderr: bool,
+}
+
+pub fn raw_writer_child(c: &RawWriter) -> i32 {
+    use log4rs::encode::writer::console::ConsoleWriter;
+    let Some(mut w) = (if c.stderr { ConsoleWriter::stderr() } else { ConsoleWriter::stdout() }) else { return 7 };
+    for (locked, style, text) in &c.ops {
+        let r: std::io::Result<()> = if *locked {
+            let mut l = w.lock();
+            (|| {
+                if let Some(s) = style {
+                    l.set_style(&mk_style(s.0, s.1, s.2))?;
+                }
+                l.write_all(text.as_bytes())?;
+                l.flush()
+            })()
+        } else {
+            (|| {
+                if let Some(s) = style {
+                    w.set_style(&mk_style(s.0, s.1, s.2))?;
+                }
+                w.write_all(text.as_bytes())?;
+                w.flush()
+            })()
+        };
+        if r.is_err() {
+            return 3;
+        }
+    }
+    0
+}
+
+pub fn check_raw_writer(tmp: &Path, c: &RawWriter, obs: &mut Obs) -> CaseResult {
+    let exe = std::env::current_exe().map_err(|e| Failure { sig: "C18:harness".into(), msg: e.to_string() })?;
+    let dir = scratch(tmp, "c18r");
+    let file = dir.join("raw.json");
+    std::fs::write(&file, serde_json::to_string(c).unwrap()).unwrap();
+    let out = Command::new(exe).arg("child").arg("c18raw").arg(&file).env_remove("NO_COLOR").env_remove("CLICOLOR").env("CLICOLOR_FORCE", "1").stdin(Stdio::null()).output().map_err(|e| Failure { sig: "C18:harness".into(), msg: e.to_string() })?;
+    let _ = std::fs::remove_dir_all(&dir);
+    ensure!(out.status.code() == Some(0), "C18:child-failed", "child exited with {:?}", out.status.code());
+    let b = if c.stderr { &out.stderr } else { &out.stdout };
+    let mut i = 0usize;
+    for (k, (locked, style, text)) in c.ops.iter().enumerate() {
+        if let Some(s) = style {
+            let how = if *locked { "through lock()" } else { "on the writer itself" };
+            ensure!(b.len() > i + 2 && b[i] == 0x1b && b[i + 1] == b'[', "C18:style-request-without-sequence", "operation #{}: style {:?} was requested {} (colour forced) but no escape sequence starts at byte {} of the stream: {:?}", k, mk_style(s.0, s.1, s.2), how, i, String::from_utf8_lossy(&b[i.min(b.len())..(i + 24).min(b.len())]));
+            let end = match b[i..].iter().position(|x| *x == b'm') {
+                Some(e) => i + e + 1,
+                None => return fail("C18:malformed-escape", format!("operation #{}: unterminated escape sequence", k)),
+            };
+            let mut state = Sgr { fg: Some(9), bg: Some(9), bold: true };
+            apply_sgr(&mut state, &b[i..end]).map_err(|e| Failure { sig: "C18:malformed-escape".into(), msg: format!("operation #{}: {}", k, e) })?;
+            let want = Sgr { fg: color_index(COLORS[s.0]), bg: color_index(COLORS[s.1]), bold: INTENSE[s.2] == Some(true) };
+            ensure!(state == want, "C18:wrong-attributes", "operation #{}: style {:?} requested {}: the sequence {:?} leaves a terminal at {:?}, requested {:?}", k, mk_style(s.0, s.1, s.2), how, String::from_utf8_lossy(&b[i..end]), state, want);
+            i = end;
+        }
+        ensure!(b.len() >= i + text.len() && &b[i..i + text.len()] == text.as_bytes(), "C18:text-differs", "operation #{}: the text {:?} does not follow at byte {}: {:?}", k, text, i, String::from_utf8_lossy(&b[i.min(b.len())..(i + 40).min(b.len())]));
+        i += text.len();
+        obs.sub_evals += 1;
+    }
+    ensure!(i == b.len(), "C18:text-differs", "{} bytes after the last operation: {:?}", b.len() - i, String::from_utf8_lossy(&b[i..]));
+    obs.nontrivial = true;
+    obs.class("console-writer-used-directly");
+    Ok(())
+}
+
+pub fn raw_writer_strategy() -> impl Strategy<Value = RawWriter> {
+    // few distinct styles, so that the same style is asked for again and again
+    let style = prop::sample::select(vec![(2usize, 0usize, 0usize), (2, 0, 0), (3, 0, 2), (0, 0, 0), (0, 0, 0), (2, 4, 1), (8, 1, 2)]);
+    (prop::collection::vec((prop::bool::weighted(0.4), prop::option::weighted(0.75, style), prop::sample::select(vec!["", "x", "text ", "\n", "é"]).prop_map(|s| s.to_string())), 1..=14), prop::bool::ANY).prop_map(|(ops, stderr)| RawWriter { ops, stderr })
+}
+
 pub fn run(run: &Run) {
     let tmp = run.tmp.clone();
+    {
+        let t = tmp.clone();
+        let f = move |c: &RawWriter, o: &mut Obs| check_raw_writer(&t, c, o);
+        run.run_replays::<RawWriter>("raw-writer", &f);
+        run.search("raw-writer", run.tier.pick(60, 2_000), raw_writer_strategy(), &f);
+    }
     if run.worker.0 == 2 % run.worker.1 {
         for (i, (threads, repeat)) in [(2u8, 40usize), (4, 25), (8, 12), (3, 30)].into_iter().enumerate() {
             for colour in [true, false] {
@@ -1071,6 +1156,13 @@ pub fn replay(part: &str, case: serde_json::Value) -> Option<CaseResult> {
         }
         "styles" | "style-pairs" => Some(check_style(&serde_json::from_value(case).ok()?, &mut Obs::default())),
         "interleave" => Some(check_interleave(&serde_json::from_value(case).ok()?, &mut Obs::default())),
+        "raw-writer" => {
+            let tmp = std::env::temp_dir().join(format!("lv-replay-{}", std::process::id()));
+            std::fs::create_dir_all(&tmp).ok()?;
+            let r = check_raw_writer(&tmp, &serde_json::from_value(case).ok()?, &mut Obs::default());
+            let _ = std::fs::remove_dir_all(&tmp);
+            Some(r)
+        }
         "threads" => {
             let tmp = std::env::temp_dir().join(format!("lv-replay-{}", std::process::id()));
             std::fs::create_dir_all(&tmp).ok()?;
@@ -1092,7 +1184,7 @@ pub fn replay(part: &str, case: serde_json::Value) -> Option<CaseResult> {
 pub fn meta() -> EvidenceMeta {
     EvidenceMeta {
         level: "exploration",
-        rule: "matrix (exhaustive every run): NO_COLOR, CLICOLOR, CLICOLOR_FORCE each in {unset,\"0\",set (spelled 1/true/yes/on/2/TRUE/x)} x stdout in {pty,pipe} x stderr in {pty,pipe} x target x tty_only = 432 child processes, the parent allocates raw-mode ptys with openpty and reads both streams to EOF; the child ends with _exit right after its last append (no farewell flush); per cell the builder is told tty_only before or after the target, the encoder may refuse one record in the middle (later records must still appear), a generated pattern (a highlight group around generated structure, width specs around highlights, nested groups) and five records, one per level; oracle: nothing on the non-target stream; nothing on the target if tty_only and the target is not a terminal, else the reference rendering of the five records after stripping escape sequences; escape sequences (each matching ESC [ digits(;digits)* m) present iff colour is enabled, and then exactly one per style request of the pattern, in its place between the text pieces by the statement's cascade (cells with NO_COLOR=\"0\" or CLICOLOR_FORCE=\"0\" accept both readings), last sequence a reset. Every cell carries a distractor environment (TERM=dumb / unset / empty, FORCE_COLOR, COLORTERM, CI, look-alike names) that has no say in the policy; a third of the cells build the appender through the console deserializer. threads: 2-8 threads log 12-40 rounds of the five records through ONE appender at the same time (slow Display), colour forced and disabled, pipe and pty: every record arrives whole, the right number of times. literal-args (exhaustive, 60 children): a sixth record whose message is an argument-free literal (short, 4 kB after a line break, 9 kB single line, empty, multi-byte) x target x pty/pipe x {m} / {m}{n} / {h({m})}{n}; styles (exhaustive): AnsiWriter<Vec<u8>>::set_style for all 243 styles after a previous style: exactly one well-formed SGR sequence which a harness SGR interpreter maps from any prior state to exactly the requested attributes; random style pairs and write/set_style interleavings (bytes unchanged). non-trivial = a cell where tty-ness and the colour decision disagree or tty_only meets a pipe / NO_COLOR; a style with all three attributes set".into(),
+        rule: "matrix (exhaustive every run): NO_COLOR, CLICOLOR, CLICOLOR_FORCE each in {unset,\"0\",set (spelled 1/true/yes/on/2/TRUE/x)} x stdout in {pty,pipe} x stderr in {pty,pipe} x target x tty_only = 432 child processes, the parent allocates raw-mode ptys with openpty and reads both streams to EOF; the child ends with _exit right after its last append (no farewell flush); per cell the builder is told tty_only before or after the target, the encoder may refuse one record in the middle (later records must still appear), a generated pattern (a highlight group around generated structure, width specs around highlights, nested groups) and five records, one per level; oracle: nothing on the non-target stream; nothing on the target if tty_only and the target is not a terminal, else the reference rendering of the five records after stripping escape sequences; escape sequences (each matching ESC [ digits(;digits)* m) present iff colour is enabled, and then exactly one per style request of the pattern, in its place between the text pieces by the statement's cascade (cells with NO_COLOR=\"0\" or CLICOLOR_FORCE=\"0\" accept both readings), last sequence a reset. Every cell carries a distractor environment (TERM=dumb / unset / empty, FORCE_COLOR, COLORTERM, CI, look-alike names) that has no say in the policy; a third of the cells build the appender through the console deserializer. threads: 2-8 threads log 12-40 rounds of the five records through ONE appender at the same time (slow Display), colour forced and disabled, pipe and pty: every record arrives whole, the right number of times. raw-writer: the public ConsoleWriter used directly (colour forced on a pipe): generated sequences of style requests and text through the writer itself and through lock(), few distinct styles so that the same style recurs: every request yields one sequence that sets exactly the requested attributes from any prior state, the text in between is unchanged. literal-args (exhaustive, 60 children): a sixth record whose message is an argument-free literal (short, 4 kB after a line break, 9 kB single line, empty, multi-byte) x target x pty/pipe x {m} / {m}{n} / {h({m})}{n}; styles (exhaustive): AnsiWriter<Vec<u8>>::set_style for all 243 styles after a previous style: exactly one well-formed SGR sequence which a harness SGR interpreter maps from any prior state to exactly the requested attributes; random style pairs and write/set_style interleavings (bytes unchanged). non-trivial = a cell where tty-ness and the colour decision disagree or tty_only meets a pipe / NO_COLOR; a style with all three attributes set".into(),
         assumptions: vec!["highlight colours themselves are not asserted (documentation and code disagree)".into(), "ptys from libc::openpty; without them the check exits 2, it does not pass".into()],
         mutants_caught: vec![],
     }
